@@ -71,7 +71,11 @@ func graphCands(root *Case, at func(c *Case) *Graph) []*Case {
 					return true
 				})
 				if n.Err != nil && (n.Err.Wraps > 0 || n.Err.Typed || n.Err.Nested) {
-					add(func(g *Graph) bool { e := g.Stages[si][ni].Err; e.Wraps, e.Typed, e.TCode, e.Nested = 0, false, 0, false; return true })
+					add(func(g *Graph) bool {
+						e := g.Stages[si][ni].Err
+						e.Wraps, e.Typed, e.TCode, e.Nested = 0, false, 0, false
+						return true
+					})
 				}
 			}
 			if n.InKey != "" {
